@@ -182,6 +182,15 @@ func checkTemplate(c *Ctx, r *Report, format string, ti tmplInfo, spec map[strin
 		label := row.Label
 		pf := canonFields(c, row.Printed)
 		gf := canonFields(c, row.Guards)
+		// the line's value computed by a Go helper that is handed the whole
+		// Info: the fields that helper reads
+		if ff, _, whole := infoFieldsOfRowFuncs(c, ti, row); whole {
+			// (unless the statement's table itself pairs the line with the
+			// whole Info: apk's pkgver, whose composition F6 decides)
+			if sp, inSpec := spec[row.Label]; !inSpec || !(len(sp.fields) == 1 && sp.fields[0] == "Info") {
+				pf = ff
+			}
+		}
 		isCustom := false
 		for _, f := range append(append([]string{}, pf...), gf...) {
 			if strings.HasSuffix(f, ".Fields") {
